@@ -732,10 +732,30 @@ def main(argv):
             else: print('unknown argument ' + argv[i]); return 2
         if replay:
             v = json.load(open(replay))
-            if v.get('engine') == 'gram': return replay_gram(pid, replay)
-            print('unknown replay artefact'); return 2
+            if v.get('engine') == 'gram' and v.get('spec'): return replay_gram(pid, replay)
+            # other engines: the artefact describes the case completely; it is replayed by re-running the (deterministic) exploration that
+            # contains it and looking for the same case again
+            rep = Report(pid, tier); rep.replaying = True
+            import io, contextlib
+            buf = io.StringIO()
+            global EVID, REPLAYS
+            scratch = os.path.join(BUILD, 'replay-%d' % os.getpid()); EVID = os.path.join(scratch, 'evidence'); REPLAYS = os.path.join(scratch, 'replays')
+            with contextlib.redirect_stdout(buf):
+                dispatch(pid, tier, rep, QUICK_DEADLINE if tier == 'quick' else THOROUGH_DEADLINE); rep.finish()
+            shutil.rmtree(scratch, ignore_errors=True)
+            same = [w for w in rep.violations if w.get('kind') == v.get('kind') and (w.get('summary', '')[:80] == v.get('summary', '')[:80] or w.get('subject') == v.get('subject'))]
+            if same:
+                print('VIOLATION property=%s replay=%s' % (pid, replay)); print('  reproduced: ' + same[0].get('summary', '')[:500]); return 1
+            print('replay: the case did not reproduce (%d other violations in the re-run)' % len(rep.violations)); return 0
         rep = Report(pid, tier)
         deadline = QUICK_DEADLINE if tier == 'quick' else THOROUGH_DEADLINE
+        if not dispatch(pid, tier, rep, deadline): print('no check for ' + pid); return 2
+        return rep.finish()
+    except HarnessError as e:
+        print('HARNESS-ERROR: ' + str(e)); return 2
+
+def dispatch(pid, tier, rep, deadline):
+    if True:
         if pid == 'C08': run_c08(pid, tier, rep, deadline)
         elif pid == 'C02': run_c02(pid, tier, rep, deadline)
         elif pid == 'C09': run_c09(pid, tier, rep, deadline)
@@ -747,7 +767,5 @@ def main(argv):
         elif pid == 'C15': run_c15(pid, tier, rep, deadline)
         elif pid == 'C06': run_c06(pid, tier, rep, deadline)
         elif pid == 'C12': run_c12(pid, tier, rep, deadline)
-        else: print('no check for ' + pid); return 2
-        return rep.finish()
-    except HarnessError as e:
-        print('HARNESS-ERROR: ' + str(e)); return 2
+        else: return False
+        return True
